@@ -146,7 +146,7 @@ def direct_rdm(data, events, method):
     return np.array(out)
 
 
-def run_rdms(ctx, chunked, dtype='float', caller_order=None):
+def run_rdms(ctx, chunked, dtype='float', caller_order=None, unique_events=False, force_method=None):
     rng = ctx.rng
     if chunked:
         shape, radius, thr = (11, 11, 11), 1.5, 0.4
@@ -169,7 +169,7 @@ def run_rdms(ctx, chunked, dtype='float', caller_order=None):
         neighbors = [neighbors[int(i)] for i in perm]
         center_order = 'caller'
     n_cond = int(rng.integers(3, 6))
-    reps = int(rng.integers(1, 4))
+    reps = 1 if unique_events else int(rng.integers(1, 4))     # unique_events: every event label occurs once
     events = np.array([c for _ in range(reps) for c in rng.permutation(n_cond)])
     if rng.integers(2):
         events = np.array([f'ev{c}' for c in events])
@@ -179,7 +179,7 @@ def run_rdms(ctx, chunked, dtype='float', caller_order=None):
         data = rng.integers(-20, 21, size=data.shape).astype(np.int64 if rng.integers(2) else np.int8)
     if dtype == 'int8':
         data = rng.integers(-20, 21, size=data.shape).astype(np.int8)
-    method = gen.pick(rng, ['correlation', 'euclidean'])
+    method = force_method or gen.pick(rng, ['correlation', 'euclidean'])
     check = 'rdm_chunked' if chunked else 'rdm_small'
     sig = dict(what=check, method=method, chunked=chunked, n_centers='>1000' if len(centers) > 1000 else '<=1000',
                dtype=dtype, center_order=center_order)
@@ -298,6 +298,8 @@ def run(ctx):
         run_rdms(ctx, False)
     for it in range(ctx.n(4, 20)):
         run_rdms(ctx, False, dtype='int')
+        # narrow integers, one observation per condition, a method that does not centre first
+        run_rdms(ctx, False, dtype='int8', unique_events=True, force_method='euclidean')
     if ctx.shard == 0:
         run_rdms(ctx, True, dtype=gen.pick(ctx.rng, ['float', 'int']), caller_order=False)
         run_rdms(ctx, True, dtype='int8', caller_order=True)
